@@ -310,15 +310,24 @@ func obsOf(status int, hdr http.Header, body string) map[string]interface{} {
 }
 
 // doJSON decodes data into a new value of the named generated type and encodes it again.
+// scribble overwrites a buffer that has been decoded from: a caller is free to reuse it (json.Decoder does)
+func scribble(b []byte) {
+	for i := range b {
+		b[i] = '#'
+	}
+}
+
 func doJSON(typ, data string) map[string]interface{} {
 	t, ok := modelTypes[typ]
 	if !ok {
 		return map[string]interface{}{"err": "no-type"}
 	}
 	v := reflect.New(t)
-	if err := json.Unmarshal([]byte(data), v.Interface()); err != nil {
+	buf := []byte(data)
+	if err := json.Unmarshal(buf, v.Interface()); err != nil {
 		return map[string]interface{}{"unmarshal_err": err.Error()}
 	}
+	scribble(buf) // the decoded value must not keep a reference into the caller's buffer
 	out, err := json.Marshal(v.Interface())
 	if err != nil {
 		return map[string]interface{}{"marshal_err": err.Error()}
@@ -340,9 +349,11 @@ func doMethods(typ, data string, steps []methodStep) map[string]interface{} {
 	}
 	v := reflect.New(t)
 	if data != "" {
-		if err := json.Unmarshal([]byte(data), v.Interface()); err != nil {
+		buf := []byte(data)
+		if err := json.Unmarshal(buf, v.Interface()); err != nil {
 			return map[string]interface{}{"unmarshal_err": err.Error()}
 		}
+		scribble(buf)
 	}
 	results := []interface{}{}
 	errT := reflect.TypeOf((*error)(nil)).Elem()
@@ -361,9 +372,11 @@ func doMethods(typ, data string, steps []methodStep) map[string]interface{} {
 		bad := ""
 		for i := range args {
 			a := reflect.New(mt.In(i))
-			if err := json.Unmarshal(st.Args[i], a.Interface()); err != nil {
+			abuf := append([]byte(nil), st.Args[i]...)
+			if err := json.Unmarshal(abuf, a.Interface()); err != nil {
 				bad = err.Error()
 			}
+			scribble(abuf)
 			args[i] = a.Elem()
 		}
 		if bad != "" {
